@@ -65,7 +65,7 @@ class Driver:
         return self.model
 
     def build_xlsx(self, spec, stored, overrides=None, name='book.xlsx', cycles=None,
-                   strict=True):
+                   strict=True, compress=True):
         from pycel import ExcelCompiler
         if strict and any('f' in c and wbgen.unstorable(stored.get(c['a'])) for c in spec['cells']):
             # a formula whose result is empty (=A1:A3 over a blank cell), the empty text (which
@@ -76,7 +76,7 @@ class Driver:
             self.downgraded = True
             return self.build_nodata(spec, overrides, cycles)
         path = os.path.join(self.tmpdir, name)
-        wbgen.to_xlsx(spec, path, stored, overrides)
+        wbgen.to_xlsx(spec, path, stored, overrides, compress=compress)
 
         def make():
             if cycles is None:
